@@ -1,0 +1,21 @@
+//go:build verif
+// +build verif
+
+package mysql
+
+import "sort"
+
+// Add-only exports for the verification harness in /verif (build tag verif),
+// property C20.
+
+// VerifUnusedNames lists, sorted, the names a SessionVariables holds in its
+// unused map (variables to be reset to DEFAULT by the next SET statement)
+// without clearing it.
+func VerifUnusedNames(s *SessionVariables) []string {
+	names := make([]string, 0, len(s.unused))
+	for name := range s.unused {
+		names = append(names, name)
+	}
+	sort.Strings(names)
+	return names
+}
